@@ -494,7 +494,7 @@ class ExprMixin:
     # ---- attribute / subscript
     def ev_Attribute(self, e, st):
         d = dotted(e)
-        if d is not None and isinstance(e.value, ast.Name) and e.value.id not in st.env:
+        if d is not None and d.split('.')[0] not in st.env:
             v = self.global_attr(d, st)
             if v is not None:
                 return [(st, v)]
